@@ -21,9 +21,14 @@
     commit), signature validity (booleans in the operation; the NUMBER of HTLC signatures versus
     the number of non-dust HTLCs is explicit), the shachain consistency check (a
     boolean in the operation; its own theorems are in Proofs/C05Shachain.v), secp256k1
-    ([pub : secret -> point] abstract). Not modelled: asynchronous signers, splicing / batched
-    commitment_signed, quiescence, shutdown negotiation (a cooperative close signs no commitment
-    transaction), the messages before funding_signed.
+    ([pub : secret -> point] abstract), the stfu handshake (the environment says when
+    [LOCAL_STFU_SENT] / [QUIESCENT] get set; what they forbid is in the machine). The monitor side
+    is its [holder_tx_signed] lock: which holder commitment sits in the funding claim it signed
+    (through a close, or through the public [ChannelMonitor::broadcast_latest_holder_commitment_txn]
+    on a channel that is still open), after which [ChainMonitor::update_channel] never reports an
+    update complete. Not modelled: asynchronous signers, splicing / batched commitment_signed,
+    shutdown negotiation (a cooperative close signs no commitment transaction), the messages before
+    funding_signed.
 
     The correspondence with the real code is checked on every run by [h_revoke] (trace
     correspondence: same operations => same signer calls and same numbers/flags after every
@@ -71,6 +76,15 @@ Section Machine.
                                       while we still needed a channel_reestablish *)
   }.
 
+  (** Flags outside the number core: [ChannelReadyFlags::LOCAL_STFU_SENT] / [QUIESCENT], and the
+      monitor's [holder_tx_signed]: [Some k] = the funding claim the monitor queued (and signs, and
+      re-signs on every re-broadcast) spends the funding output with holder commitment number [k]. *)
+  Record xstate : Type := mkXs {
+    stfu_sent : bool;
+    quiescent : bool;
+    mon_signed : option Z
+  }.
+
   Record st : Type := mkSt {
     holder_next : Z;        (* holder_commitment_point.next_transaction_number() *)
     cp_next : Z;            (* context.counterparty_next_commitment_transaction_number *)
@@ -83,7 +97,8 @@ Section Machine.
     cp_cur_point : option point;  (* context.counterparty_current_commitment_point *)
     cp_next_point : option point; (* context.counterparty_next_commitment_point *)
     closed : bool;          (* the channel was force-closed (it left the ChannelManager) *)
-    hsk : hstate
+    hsk : hstate;
+    ext : xstate
   }.
 
   (** State right after funding_created/funding_signed: [AwaitingChannelReady] with no flag, or with
@@ -92,7 +107,7 @@ Section Machine.
       as [counterparty_next_commitment_point] until the peer's channel_ready shifts it. *)
   Definition init (batch : bool) (p0 : point) : st :=
     mkSt (INITIAL - 1) (INITIAL - 1) false false false false false false None (Some p0) false
-         (mkHs false false false batch None None).
+         (mkHs false false false batch None None) (mkXs false false None).
   Definition init_log (p0 : point) : list ev := [Announce INITIAL p0].
 
   Inductive op : Type :=
@@ -133,22 +148,51 @@ Section Machine.
   (** The funding output was spent on chain by a transaction this node did not sign (the peer's
       commitment, a cooperative close): the channel is gone, nothing is signed. *)
   | OChainClose
-  (** The monitor signs its current holder commitment again (re-broadcast, reload). *)
-  | OResign.
+  (** The monitor signs the holder commitment of its funding claim again (re-broadcast, reload). *)
+  | OResign
+  (** The user calls [ChannelMonitor::broadcast_latest_holder_commitment_txn] (at any time, also on
+      the monitor of a channel that is still open). *)
+  | OMonBroadcast
+  (** The ChannelManager processes the monitor's pending events ([process_pending_monitor_events],
+      only inside [get_and_clear_pending_msg_events] / [process_pending_events]: message handlers
+      do not do it, so any number of peer messages can be handled before). *)
+  | OProcessEvents
+  (** [try_send_stfu] sent our stfu ([LOCAL_STFU_SENT]); both sides' stfu are out ([QUIESCENT],
+      [LOCAL_STFU_SENT] cleared); [exit_quiescence]. *)
+  | OStfuSent
+  | OQuiescent
+  | OExitQuiescence.
 
   Definition upd_mon (s : st) (raa cs : bool) : st :=
     (* monitor_updating_paused(resend_raa, resend_commitment, ..) *)
     mkSt (holder_next s) (cp_next s) (awaiting_rr s) (disconnected s) true
-         (mp_raa s || raa) (mp_cs s || cs) (raa_first s) (cp_cur_point s) (cp_next_point s) (closed s) (hsk s).
+         (mp_raa s || raa) (mp_cs s || cs) (raa_first s) (cp_cur_point s) (cp_next_point s) (closed s) (hsk s) (ext s).
 
   (** [build_commitment_no_status_check]: resend_order := RevokeAndACKFirst, AWAITING_REMOTE_REVOKE set *)
   Definition build_commitment (s : st) : st :=
     mkSt (holder_next s) (cp_next s) true (disconnected s) (mon_in_progress s)
-         (mp_raa s) (mp_cs s) true (cp_cur_point s) (cp_next_point s) (closed s) (hsk s).
+         (mp_raa s) (mp_cs s) true (cp_cur_point s) (cp_next_point s) (closed s) (hsk s) (ext s).
 
   (** [ChannelState::can_generate_new_commitment] *)
   Definition can_generate_new_commitment (s : st) : bool :=
-    chan_ready (hsk s) && negb (awaiting_rr s) && negb (mon_in_progress s) && negb (disconnected s).
+    chan_ready (hsk s) && negb (awaiting_rr s) && negb (stfu_sent (ext s)) && negb (quiescent (ext s))
+    && negb (mon_in_progress s) && negb (disconnected s).
+
+  (** [ChannelMonitorImpl::no_further_updates_allowed] as far as [holder_tx_signed] goes: from then on
+      the monitor answers every pre-close update with [Err], and [ChainMonitor::update_channel] turns
+      that into [InProgress] whatever the persister says: the update never completes. *)
+  Definition mon_locked (s : st) : bool :=
+    match mon_signed (ext s) with Some _ => true | None => false end.
+
+  Definition set_mon_signed (s : st) (k : Z) : st :=
+    mkSt (holder_next s) (cp_next s) (awaiting_rr s) (disconnected s) (mon_in_progress s)
+         (mp_raa s) (mp_cs s) (raa_first s) (cp_cur_point s) (cp_next_point s) (closed s) (hsk s)
+         (mkXs (stfu_sent (ext s)) (quiescent (ext s)) (Some k)).
+
+  Definition set_stfu (s : st) (sent quiet : bool) : st :=
+    mkSt (holder_next s) (cp_next s) (awaiting_rr s) (disconnected s) (mon_in_progress s)
+         (mp_raa s) (mp_cs s) (raa_first s) (cp_cur_point s) (cp_next_point s) (closed s) (hsk s)
+         (mkXs sent quiet (mon_signed (ext s))).
 
   (** [get_last_revoke_and_ack]: the only caller of [release_commitment_secret] *)
   Definition last_raa (s : st) : list ev := [Release (holder_next s + 2)].
@@ -158,29 +202,50 @@ Section Machine.
   (** [monitor_updating_restored] *)
   Definition restore (s : st) : st * list ev :=
     let s1 := mkSt (holder_next s) (cp_next s) (awaiting_rr s) (disconnected s) false
-                   false false (raa_first s) (cp_cur_point s) (cp_next_point s) (closed s) (hsk s) in
+                   false false (raa_first s) (cp_cur_point s) (cp_next_point s) (closed s) (hsk s) (ext s) in
     if disconnected s then (s1, [])
     else (s1, (if mp_raa s then last_raa s else []) ++ (if mp_cs s then last_cs s else [])).
 
   Definition maybe_restore (sync : bool) (s : st) (evs : list ev) : st * list ev :=
-    if sync then let '(s', evs') := restore s in (s', evs ++ evs') else (s, evs).
+    if sync && negb (mon_locked s) then let '(s', evs') := restore s in (s', evs ++ evs') else (s, evs).
 
   (** A [ChannelError::Close] / force close: the monitor signs and broadcasts its current holder
-      commitment, the channel is gone. *)
+      commitment, the channel is gone. If the monitor has signed one before, its funding claim
+      exists already and the second request for the same outpoint is dropped: nothing new is signed. *)
   Definition close (s : st) (evs : list ev) : st * list ev :=
-    (mkSt (holder_next s) (cp_next s) (awaiting_rr s) (disconnected s) (mon_in_progress s)
-          (mp_raa s) (mp_cs s) (raa_first s) (cp_cur_point s) (cp_next_point s) true (hsk s),
-     (* [is_funding_broadcastable]: a batch-funded channel still WAITING_FOR_BATCH has no funding
-        transaction on the wire, so nothing is signed or broadcast *)
-     if chan_ready (hsk s) || negb (wfb (hsk s)) then evs ++ [SignHolder (holder_next s + 1)] else evs).
+    let gone (x : xstate) :=
+      mkSt (holder_next s) (cp_next s) (awaiting_rr s) (disconnected s) (mon_in_progress s)
+           (mp_raa s) (mp_cs s) (raa_first s) (cp_cur_point s) (cp_next_point s) true (hsk s) x in
+    match mon_signed (ext s) with
+    | Some _ => (gone (ext s), evs)
+    | None =>
+      (* [is_funding_broadcastable]: a batch-funded channel still WAITING_FOR_BATCH has no funding
+         transaction on the wire, so nothing is signed or broadcast *)
+      if chan_ready (hsk s) || negb (wfb (hsk s))
+      then (gone (mkXs (stfu_sent (ext s)) (quiescent (ext s)) (Some (holder_next s + 1))),
+            evs ++ [SignHolder (holder_next s + 1)])
+      else (gone (ext s), evs)
+    end.
+
+  (** The monitor signs a holder commitment outside a close: the funding claim it already has
+      (re-broadcast, fee bump, reload), or -- on request of the user through
+      [ChannelMonitor::broadcast_latest_holder_commitment_txn], or for a closed channel whose claim
+      was not queued yet -- its current one. *)
+  Definition mon_sign (s : st) (fresh : bool) : st * list ev :=
+    match mon_signed (ext s) with
+    | Some k => (s, if fresh then [] else [SignHolder k])
+    | None => if fresh || closed s
+              then (set_mon_signed s (holder_next s + 1), [SignHolder (holder_next s + 1)])
+              else (s, [])
+    end.
 
 
   Definition set_mp_raa (s : st) (b : bool) : st :=
     mkSt (holder_next s) (cp_next s) (awaiting_rr s) (disconnected s) (mon_in_progress s)
-         b (mp_cs s) (raa_first s) (cp_cur_point s) (cp_next_point s) (closed s) (hsk s).
+         b (mp_cs s) (raa_first s) (cp_cur_point s) (cp_next_point s) (closed s) (hsk s) (ext s).
   Definition set_mp_cs (s : st) (b : bool) : st :=
     mkSt (holder_next s) (cp_next s) (awaiting_rr s) (disconnected s) (mon_in_progress s)
-         (mp_raa s) b (raa_first s) (cp_cur_point s) (cp_next_point s) (closed s) (hsk s).
+         (mp_raa s) b (raa_first s) (cp_cur_point s) (cp_next_point s) (closed s) (hsk s) (ext s).
 
   (** [channel_reestablish], the [required_revoke] decision; [None] = the final [else] that
       closes ("expecting a future local commitment transaction") *)
@@ -201,7 +266,7 @@ Section Machine.
 
   Definition set_hs (s : st) (h : hstate) : st :=
     mkSt (holder_next s) (cp_next s) (awaiting_rr s) (disconnected s) (mon_in_progress s)
-         (mp_raa s) (mp_cs s) (raa_first s) (cp_cur_point s) (cp_next_point s) (closed s) h.
+         (mp_raa s) (mp_cs s) (raa_first s) (cp_cur_point s) (cp_next_point s) (closed s) h (ext s).
 
   Definition opt_point_eqb (a : option point) (b : point) : bool :=
     match a with Some x => point_eqb x b | None => false end.
@@ -236,7 +301,7 @@ Section Machine.
         if opt_point_eqb expected p then (s, []) else close s []
       else
         (mkSt (holder_next s) (cp_next s) (awaiting_rr s) (disconnected s) (mon_in_progress s)
-              (mp_raa s) (mp_cs s) (raa_first s) (cp_next_point s) (Some p) (closed s) (snd decision),
+              (mp_raa s) (mp_cs s) (raa_first s) (cp_next_point s) (Some p) (closed s) (snd decision) (ext s),
          [Announce (cp_next s) p]).
 
   (** [FundedChannel::channel_reestablish] *)
@@ -255,7 +320,7 @@ Section Machine.
         (if secret_ok
          then (mkSt (holder_next s) (cp_next s) (awaiting_rr s) (disconnected s)
                     (mon_in_progress s) (mp_raa s) (mp_cs s) (raa_first s)
-                    (cp_cur_point s) (cp_next_point s) true (hsk s), [])
+                    (cp_cur_point s) (cp_next_point s) true (hsk s) (ext s), [])
          else close s [])
       else if (0 <? nr) && ((nr =? our) || (nr + 1 =? our)) && negb secret_ok then close s []
       else if nr + 1 <? our then (s, [])   (* ChannelError::Warn *)
@@ -263,7 +328,7 @@ Section Machine.
         (* clear_peer_disconnected *)
         let s0 := mkSt (holder_next s) (cp_next s) (awaiting_rr s) false (mon_in_progress s)
                        (mp_raa s) (mp_cs s) (raa_first s) (cp_cur_point s) (cp_next_point s)
-                       (closed s) (hsk s) in
+                       (closed s) (hsk s) (ext s) in
         if negb (chan_ready (hsk s)) then
           (* AwaitingChannelReady: nothing to retransmit but (possibly) our channel_ready *)
           (if (negb (our_ready (hsk s)) || mon_in_progress s) && negb (nr =? 0) then close s0 [] else (s0, []))
@@ -291,7 +356,8 @@ Section Machine.
   Definition step (s : st) (o : op) : st * list ev :=
     if closed s then
       match o with
-      | OResign => (s, [SignHolder (holder_next s + 1)])
+      | OResign => mon_sign s false
+      | OMonBroadcast => mon_sign s true
       | _ => (s, [])
       end
     else
@@ -301,8 +367,9 @@ Section Machine.
         then maybe_restore sync (upd_mon (build_commitment s) false true) []
         else (s, [])
     | ORecvCS sig_ok nsig nnd htlc_sigs_ok need_cs sync =>
-        (* commitment_signed_check_state *)
-        if negb (chan_ready (hsk s)) then close s []
+        (* commitment_signed_check_state: quiescent => ChannelError::WarnAndDisconnect *)
+        if quiescent (ext s) then (s, [])
+        else if negb (chan_ready (hsk s)) then close s []
         else if disconnected s then close s []
         (* validate_commitment_signed: commitment signature, then
            [msg.htlc_signatures.len() != nondust_htlcs().len()], then each HTLC signature *)
@@ -314,17 +381,20 @@ Section Machine.
           (* commitment_signed_update_monitor: advance; resend_order := CommitmentFirst *)
           let s1 := mkSt (holder_next s - 1) (cp_next s) (awaiting_rr s) (disconnected s)
                          (mon_in_progress s) (mp_raa s) (mp_cs s) false
-                         (cp_cur_point s) (cp_next_point s) (closed s) (hsk s) in
+                         (cp_cur_point s) (cp_next_point s) (closed s) (hsk s) (ext s) in
           let commit := need_cs && negb (awaiting_rr s1) in
           let s2 := if commit then build_commitment s1 else s1 in
           maybe_restore sync (upd_mon s2 true commit) evs
     | ORecvRAA sec next_point chain_ok commit sync =>
-        if negb (chan_ready (hsk s)) then close s []
+        (* quiescent => ChannelError::WarnAndDisconnect *)
+        if quiescent (ext s) then (s, [])
+        else if negb (chan_ready (hsk s)) then close s []
         else if disconnected s then close s []
         else if match cp_cur_point s with
                 | Some p => negb (point_eqb (pub sec) p)
                 | None => false
                 end then close s []
+        (* "Received an unexpected revoke_and_ack": a function of AWAITING_REMOTE_REVOKE alone *)
         else if negb (awaiting_rr s) then close s []
         else
           let evs := [ValidateRevocation (cp_next s + 1)] in
@@ -336,12 +406,12 @@ Section Machine.
                            (cp_next_point s) (Some next_point) (closed s)
                            (if cp_next s + 1 =? INITIAL - 1
                             then mkHs (chan_ready (hsk s)) (our_ready (hsk s)) (their_ready (hsk s)) (wfb (hsk s)) (Some sec) (pending_ready (hsk s))
-                            else hsk s) in
+                            else hsk s) (ext s) in
             let s2 := if commit then build_commitment s1 else s1 in
             maybe_restore sync (upd_mon s2 false commit) evs
     | OMonUpdate sync => maybe_restore sync (upd_mon s false false) []
     | OMonitorDone =>
-        if mon_in_progress s then restore s else (s, [])
+        if mon_in_progress s && negb (mon_locked s) then restore s else (s, [])
     | ORecvChannelReady p => recv_channel_ready s p
     | OOurChannelReady =>
         let h := hsk s in
@@ -355,19 +425,35 @@ Section Machine.
         let h := hsk s in
         (set_hs s (mkHs (chan_ready h) (our_ready h) (their_ready h) false (sec1 h) (pending_ready h)), [])
     | ODisconnect =>
+        (* quiescence is implicitly terminated by a disconnection *)
         (mkSt (holder_next s) (cp_next s) (awaiting_rr s) true (mon_in_progress s)
-              (mp_raa s) (mp_cs s) (raa_first s) (cp_cur_point s) (cp_next_point s) (closed s) (hsk s), [])
+              (mp_raa s) (mp_cs s) (raa_first s) (cp_cur_point s) (cp_next_point s) (closed s) (hsk s)
+              (mkXs false false (mon_signed (ext s))), [])
     | OReload =>
         let h := hsk s in
         (mkSt (holder_next s) (cp_next s) (awaiting_rr s) true (mon_in_progress s)
               (mp_raa s) (mp_cs s) (raa_first s) (cp_cur_point s) (cp_next_point s) (closed s)
-              (mkHs (chan_ready h) (our_ready h) (their_ready h) (wfb h) (sec1 h) None), [])
+              (mkHs (chan_ready h) (our_ready h) (their_ready h) (wfb h) (sec1 h) None)
+              (mkXs false false (mon_signed (ext s))), [])
     | ORecvReest nl nr sec => reest_with_replay s nl nr sec
     | OForceClose => close s []
     | OChainClose =>
         (mkSt (holder_next s) (cp_next s) (awaiting_rr s) (disconnected s) (mon_in_progress s)
-              (mp_raa s) (mp_cs s) (raa_first s) (cp_cur_point s) (cp_next_point s) true (hsk s), [])
-    | OResign => (s, [])
+              (mp_raa s) (mp_cs s) (raa_first s) (cp_cur_point s) (cp_next_point s) true (hsk s) (ext s), [])
+    | OResign => mon_sign s false
+    | OMonBroadcast => mon_sign s true
+    | OProcessEvents =>
+        (* the monitor's HolderForceClosed event reaches the ChannelManager: the channel is closed
+           without another broadcast *)
+        if mon_locked s
+        then (mkSt (holder_next s) (cp_next s) (awaiting_rr s) (disconnected s) (mon_in_progress s)
+                   (mp_raa s) (mp_cs s) (raa_first s) (cp_cur_point s) (cp_next_point s) true (hsk s) (ext s), [])
+        else (s, [])
+    | OStfuSent =>
+        if chan_ready (hsk s) then (set_stfu s true (quiescent (ext s)), []) else (s, [])
+    | OQuiescent =>
+        if chan_ready (hsk s) then (set_stfu s false true, []) else (s, [])
+    | OExitQuiescence => (set_stfu s (stfu_sent (ext s)) false, [])
     end.
 
   (** Run from a state, collecting the chronological log. *)
@@ -394,49 +480,54 @@ Section Machine.
     p_rv : Z;      (* latest counterparty number whose revocation was validated; INITIAL+1 = none *)
     p_st : Z;      (* latest counterparty number whose secret was stored; INITIAL+1 = none *)
     p_ann : list (Z * point);  (* points announced by the peer, by commitment number *)
-    p_signed : bool            (* a holder commitment was signed for broadcast: channel is over *)
+    p_rel : Z;     (* the holder number whose secret was released last (they only go down);
+                      INITIAL+1 = none *)
+    p_sh : option Z  (* the highest (= oldest) holder number ever signed for broadcast *)
   }.
-  Definition pol_init : pol := mkPol INITIAL (INITIAL + 1) (INITIAL + 1) [] false.
+  Definition pol_init : pol := mkPol INITIAL (INITIAL + 1) (INITIAL + 1) [] (INITIAL + 1) None.
 
   Definition announced (a : list (Z * point)) (k : Z) (p : point) : bool :=
     existsb (fun kp : Z * point => (fst kp =? k) && point_eqb (snd kp) p) a.
 
+  Definition sh_max (o : option Z) (k : Z) : option Z :=
+    match o with None => Some k | Some m => Some (Z.max m k) end.
+  Definition sh_below (o : option Z) (k : Z) : bool :=
+    match o with None => true | Some m => m <? k end.
+
   Definition chk (g : pol) (e : ev) : option pol :=
     match e with
     | SignHolder k =>
-        (* only the latest validated commitment is ever signed for broadcast; since secrets are
-           released only for numbers above [p_vh], it is unrevoked *)
-        if k =? p_vh g then Some (mkPol (p_vh g) (p_rv g) (p_st g) (p_ann g) true) else None
-    | _ =>
-      if p_signed g then None (* after broadcasting, nothing else may happen: no later release *)
-      else
-      match e with
-      | ValidateHolder k nsig nnd =>
-          (* holder numbers step by exactly one, and the commitment is FULLY signed: one counterparty
-             HTLC signature per non-dust HTLC *)
-          if (k =? p_vh g - 1) && (nsig =? nnd) then Some (mkPol k (p_rv g) (p_st g) (p_ann g) false) else None
-      | Release k =>
-          (* exactly the predecessor of the latest validated commitment, hence only after a
-             newer fully signed one is held; never the initial one without a successor *)
-          if (k =? p_vh g + 1) && (k <=? INITIAL) then Some g else None
-      | SignCounterparty k =>
-          (* exactly the number two below the latest stored revocation: the only other unrevoked
-             counterparty commitment is k+1 *)
-          if k =? p_st g - 2 then Some g else None
-      | ValidateRevocation k =>
-          (* counterparty revocations step by exactly one, each stored before the next *)
-          if (k =? p_rv g - 1) && (p_st g =? p_rv g)
-          then Some (mkPol (p_vh g) k (p_st g) (p_ann g) false) else None
-      | StoreSecret k s =>
-          (* stored only after validation, only if its point is the one announced for [k] *)
-          if (k =? p_rv g) && (p_st g =? k + 1) && announced (p_ann g) k (pub s)
-          then Some (mkPol (p_vh g) (p_rv g) k (p_ann g) false) else None
-      | Announce k p =>
-          (* the point of a commitment number is announced once and never replaced *)
-          if existsb (fun kp : Z * point => fst kp =? k) (p_ann g) then None
-          else Some (mkPol (p_vh g) (p_rv g) (p_st g) ((k, p) :: p_ann g) false)
-      | SignHolder _ => None
-      end
+        (* only a validated commitment whose secret was not released: every released number is
+           at least [p_rel] *)
+        if (p_vh g <=? k) && (k <? p_rel g)
+        then Some (mkPol (p_vh g) (p_rv g) (p_st g) (p_ann g) (p_rel g) (sh_max (p_sh g) k)) else None
+    | ValidateHolder k nsig nnd =>
+        (* holder numbers step by exactly one, and the commitment is FULLY signed: one counterparty
+           HTLC signature per non-dust HTLC *)
+        if (k =? p_vh g - 1) && (nsig =? nnd)
+        then Some (mkPol k (p_rv g) (p_st g) (p_ann g) (p_rel g) (p_sh g)) else None
+    | Release k =>
+        (* exactly the predecessor of the latest validated commitment, hence only after a
+           newer fully signed one is held; never the initial one without a successor; and NEVER
+           a number that was signed for broadcast (nor a newer one) *)
+        if (k =? p_vh g + 1) && (k <=? INITIAL) && sh_below (p_sh g) k
+        then Some (mkPol (p_vh g) (p_rv g) (p_st g) (p_ann g) k (p_sh g)) else None
+    | SignCounterparty k =>
+        (* exactly the number two below the latest stored revocation: the only other unrevoked
+           counterparty commitment is k+1 *)
+        if k =? p_st g - 2 then Some g else None
+    | ValidateRevocation k =>
+        (* counterparty revocations step by exactly one, each stored before the next *)
+        if (k =? p_rv g - 1) && (p_st g =? p_rv g)
+        then Some (mkPol (p_vh g) k (p_st g) (p_ann g) (p_rel g) (p_sh g)) else None
+    | StoreSecret k s =>
+        (* stored only after validation, only if its point is the one announced for [k] *)
+        if (k =? p_rv g) && (p_st g =? k + 1) && announced (p_ann g) k (pub s)
+        then Some (mkPol (p_vh g) (p_rv g) k (p_ann g) (p_rel g) (p_sh g)) else None
+    | Announce k p =>
+        (* the point of a commitment number is announced once and never replaced *)
+        if existsb (fun kp : Z * point => fst kp =? k) (p_ann g) then None
+        else Some (mkPol (p_vh g) (p_rv g) (p_st g) ((k, p) :: p_ann g) (p_rel g) (p_sh g))
     end.
 
   Fixpoint chk_all (g : pol) (l : list ev) : option pol :=
@@ -465,6 +556,7 @@ Arguments cp_cur_point {secret point} s.
 Arguments cp_next_point {secret point} s.
 Arguments closed {secret point} s.
 Arguments hsk {secret point} s.
+Arguments ext {secret point} s.
 Arguments chan_ready {secret point} h.
 Arguments our_ready {secret point} h.
 Arguments their_ready {secret point} h.
@@ -475,7 +567,8 @@ Arguments p_vh {point} p.
 Arguments p_rv {point} p.
 Arguments p_st {point} p.
 Arguments p_ann {point} p.
-Arguments p_signed {point} p.
+Arguments p_rel {point} p.
+Arguments p_sh {point} p.
 Arguments OCommit {secret point} sync.
 Arguments ORecvCS {secret point} sig_ok nsig nnd htlc_sigs_ok need_cs sync.
 Arguments ORecvRAA {secret point} s next_point chain_ok commit sync.
@@ -490,3 +583,8 @@ Arguments ORecvReest {secret point} next_local next_remote sec.
 Arguments OForceClose {secret point}.
 Arguments OChainClose {secret point}.
 Arguments OResign {secret point}.
+Arguments OMonBroadcast {secret point}.
+Arguments OProcessEvents {secret point}.
+Arguments OStfuSent {secret point}.
+Arguments OQuiescent {secret point}.
+Arguments OExitQuiescence {secret point}.
